@@ -37,6 +37,7 @@ func init() {
 			{ID: "C02.R16", Text: "the first checkpoint of a vBucket is created: upsert, on key-not-found create then upsert again, last step's error returned (same rule as C05.R15)", Run: upsertLadder},
 			{ID: "C02.R17", Text: "the Couchbase backend's per-vBucket reader, exhaustively: a parsable document is installed under its vBucket and raises 'exists'; an unparsable one or key-not-found installs an all-zero document without raising it; any other error panics with nothing installed; Done exactly once", Run: cbLoadReader},
 			{ID: "C02.R18", Text: "the sampled high sequence number (latest start, finite end) is the largest any node/collection reported (same rule as C15.R16)", Run: seqnoMerge},
+			{ID: "C02.R19", Text: "the backend and the requested end are chosen by the documented values of metadata.type and dcp.mode (same rule as C15.R18)", Run: configPredicates},
 			{ID: "C02.R6", Text: "read-only wrapper: Save/Clear perform no call and return nil, Load forwards its parameters; Start wraps the metadata whenever Metadata.ReadOnly and under no other condition", Run: c02r6},
 		},
 	})
